@@ -3,10 +3,10 @@
 package mc
 
 import (
-	"os"
 	"encoding/json"
 	"fmt"
 	"math/big"
+	"os"
 	"strings"
 	"time"
 
@@ -81,6 +81,11 @@ func c05Ops(spec c05PoolSpec) []c05Op {
 		for _, a := range []string{"dust1", "10pct"} {
 			ops = append(ops, c05Op{Name: fmt.Sprintf("join_single(asset%d,%s)", i, a), Kind: "join_single", Arg: a, Idx: i})
 		}
+	}
+	// coin LISTS that the message's stateless validation admits although they are not a valid coin set
+	// (validation looks at each coin alone): one denom twice, the pair in reverse order, a triple
+	for _, a := range []string{"asset0_twice", "asset1_twice", "reversed_pair", "pair_plus_asset0"} {
+		ops = append(ops, c05Op{Name: "join_list(" + a + ")", Kind: "join_list", Arg: a})
 	}
 	for _, a := range []string{"1", "1e6", "1e18", "half_mine", "all_mine", "all_mine+1"} {
 		ops = append(ops, c05Op{Name: "exit_all_assets(" + a + ")", Kind: "exit_all", Arg: a})
@@ -315,6 +320,35 @@ func (r *c05Run) apply(ctx sdk.Context, s *c05State, op c05Op, path []string) {
 		}
 		err = r.deliver(ctx, &ammtypes.MsgJoinPool{Sender: actor, PoolId: r.poolId, MaxAmountsIn: max, ShareAmountOut: shares})
 		judged, minted = err == nil, true
+	case "join_list":
+		c0 := sdk.NewCoin(pre.denoms[0], pre.res[0].QuoRaw(10).AddRaw(1))
+		c1 := sdk.NewCoin(pre.denoms[1], pre.res[1].QuoRaw(10).AddRaw(1))
+		var list sdk.Coins
+		switch op.Arg {
+		case "asset0_twice":
+			list = sdk.Coins{c0, c0}
+		case "asset1_twice":
+			list = sdk.Coins{c1, c1}
+		case "reversed_pair":
+			list = sdk.Coins{c1, c0}
+			if pre.denoms[0] > pre.denoms[1] {
+				list = sdk.Coins{c0, c1}
+			}
+		default:
+			list = sdk.Coins{c0, c1, c0}
+		}
+		shares := sdkmath.NewInt(1)
+		if r.spec.Oracle {
+			shares = sdkmath.ZeroInt()
+		}
+		m := &ammtypes.MsgJoinPool{Sender: actor, PoolId: r.poolId, MaxAmountsIn: list, ShareAmountOut: shares}
+		if m.ValidateBasic() != nil {
+			return // the chain refuses it before any handler runs
+		}
+		r.st.Clauses["malformed_coin_list_admitted_by_stateless_validation"]++
+		err = r.deliver(ctx, m)
+		judged, minted = err == nil, true
+		s.onlyAllAsset = false
 	case "join_single":
 		a := sdkmath.NewInt(1)
 		if op.Arg == "10pct" {
